@@ -51,6 +51,13 @@ class TarHarness(Harness):
         try:
             img = os.path.join(td, "img")
             M.build_image(img, c)
+            # dot-named entries at the root, and a hardlink group of empty files
+            for rel, data in ((".keep", ""), (".config/x", "cfg"), ("s/e1", "")):
+                os.makedirs(os.path.dirname(os.path.join(img, rel)), exist_ok=True)
+                with open(os.path.join(img, rel), "w") as fh:
+                    fh.write(data)
+                os.utime(os.path.join(img, rel), (M.MT, M.MT))
+            os.link(os.path.join(img, "s/e1"), os.path.join(img, "s/e2"))
             cset = M.scan_image(img)
             want_extra = {}
             if c["empty"]:
@@ -70,6 +77,14 @@ class TarHarness(Harness):
                 tar.write_set(cset, path, compressor=comp)
                 back = tar.generate_contents(path, compressor=comp)
                 got, got_groups = describe(back)
+                if c["empty"]:
+                    # an archive without a single header (a compressed empty stream) is an empty set too
+                    import bz2
+
+                    with open(path, "wb") as fh:
+                        fh.write(bz2.compress(b""))
+                    if list(tar.generate_contents(path, compressor=comp)):
+                        got["<header-less archive>"] = {"type": "not empty"}
             except Exception as e:
                 exc = f"{type(e).__name__}: {e}".replace(td, "<scratch>")
                 got, got_groups = None, None
